@@ -58,8 +58,10 @@ std::string op_opt1(std::string const &_op, line_t const &L)
               FWD(x),
               [keep](auto &&e)
               {
-                e.read();
-                return keep ? opt<T>{thru{}(FWD(e))} : opt<T>{};
+                if (keep)
+                  return opt<T>{thru{}(FWD(e))};
+                ask(FWD(e));
+                return opt<T>{};
               });
         })};
     event_log const log{g_log};
@@ -96,9 +98,9 @@ std::string op_opt1(std::string const &_op, line_t const &L)
         {
           return fcppt::optional::filter(
               FWD(x),
-              [keep](T const &e)
+              [keep](auto &&e)
               {
-                e.read();
+                ask(FWD(e));
                 return keep;
               });
         })};
